@@ -176,7 +176,8 @@ def c10(run, tier):
                 "(answer and step count per call), recursive with cache on and off; SLG traces validated; RecGround.tla: the recursive solver's "
                 "fixed-point engine (cache, search graph, stack, minimums, iteration) as a recursive operator, every history of two solves model-checked "
                 "(ResultsCorrect, CacheSound: every cache entry is the meaning of its goal, GraphEmpty) and the real solver's engine events compared "
-                "event by event")
+                "event by event; first-order level: goals of ImplMC / MiniMC programs (unknowns, several answers, aggregated guidance) asked as histories on one "
+                "solver (every goal twice, two orders) must get exactly the answer a fresh solver gives")
     run.assumptions = GROUND_ASSUME
     if tier == "quick":
         f, byid = fam(run, tier, (2, 2, 2, True, True), 70, None)
@@ -189,6 +190,8 @@ def c10(run, tier):
     recs = [r for r in recs if len(r["results"]) >= 2]
     gc.replay(run, recs, byid, [gc.SLG, gc.REC, gc.RECNC])
     rec_engine(run, tier, "C10r", max_ops=2, max_stop=0, caches=(True,))
+    import props_order
+    props_order.history_generic(run, tier)
 
 # ------------------------------------------------------------------------------------------------
 @prop("C11")
